@@ -948,6 +948,64 @@ def handler_table_leg(res):
                          {"method": cfg[0], "link": cfg[1], "include_drf": cfg[2], "include_dmd": cfg[3]}, row, got)
 
 
+def leftover_leg(res):
+    """an earlier mirror run was interrupted between staging a file and publishing it: the destination holds
+    tmp.<name> (a hard link of the source file in link mode, a complete or partial copy otherwise).  The mirror is
+    started again and the events arrive (twice): every selected file must end up under its final name with the
+    source's content, and no tmp. entry of a mirrored file may remain"""
+    import sys as _sys
+    rng = res.rng
+    impl = Impl(False)
+    for h in range(9 if res.tier == "quick" else 60):
+        meth = h % 3
+        impl.force_symlink = False
+        impl.reset(meth, (True, True))
+        files = [(-1, 0, 0), (-2, 0, 1)] + [(g, key_of(j), 0) for g in (0, 1) for j in range(3)]
+        for p in files:
+            impl.apply(("W", p, 1))
+        stale = [p for p in files if p[0] >= 0 and rng.random() < 0.6] or [files[2]]
+        how = {}
+        for p in stale:
+            sp = os.path.join(impl.src, rel(p))
+            dp = os.path.join(impl.dest, rel(p))
+            os.makedirs(os.path.dirname(dp), exist_ok=True)
+            tp = os.path.join(os.path.dirname(dp), "tmp." + os.path.basename(dp))
+            kindof = "hard link" if (meth == 2 or rng.random() < 0.3) else rng.choice(["complete copy", "partial copy"])
+            how[rel(p)] = kindof
+            if kindof == "hard link":
+                os.link(sp, tp)
+            else:
+                data = open(sp, "rb").read()
+                with open(tp, "wb") as f:
+                    f.write(data if kindof == "complete copy" else data[:len(data) // 2])
+        se = _sys.stderr
+        _sys.stderr = open(os.devnull, "w")
+        try:
+            order = files + files[::-1]
+            for p in order:
+                impl.apply(("C", p))
+        finally:
+            _sys.stderr.close()
+            _sys.stderr = se
+        src_t, dst_t = read_tree(impl.src), read_tree(impl.dest)
+        res.case(("leftover", METH[meth], tuple(sorted(how.items()))), nontrivial=True)
+        res.count("leftover-staging-file:" + METH[meth])
+        inp = {"leftover_leg": {"meth": meth, "stale": how}}
+        for p in files:
+            r = rel(p)
+            want = content(p, 1)
+            if meth == 1:
+                ok = dst_t.get(r) == want                      # RF moved; older metadata expired from the source by the ring buffer
+            else:
+                ok = dst_t.get(r) == want and src_t.get(r) == want
+            if not ok:
+                res.violation("leftover-staging-blocks-publication", "after an interrupted run left tmp.<name> (%s) in the "
+                              "destination, the restarted mirror (%s) does not publish the file" % (how.get(r, "none"), METH[meth]),
+                              dict(inp, file=r), "the source's content under the final name",
+                              {"dest_has_final": r in dst_t, "dest_entries": sorted(k for k in dst_t if os.path.dirname(k) == os.path.dirname(r))})
+                break
+
+
 def fault_leg(res):
     """move mode, one publishing rename (tmp.<name> -> <name> under the destination) fails: whatever the mirror does
     about it, an intact copy of every data file exists in the source or under the destination at every moment, and
@@ -1044,6 +1102,7 @@ def _run(res):
         res.disagree("extracted OCaml vs vm_compute (mirror runner)", None, None, None)
     handler_table_leg(res)
     fault_leg(res)
+    leftover_leg(res)
     res.extra["traces_validated_against_impl"] = res.dist.get("fs-operations-traced", 0)
     res.assumptions += [
         "os.rename and os.link are atomic; shutil.copy2 writes the destination name before the content is complete (traced: copyfile is replaced by a two-chunk copy to observe the middle)",
@@ -1056,6 +1115,37 @@ def _run(res):
 
 def replay(res, rp):
     i = rp["input"]
+    if "leftover_leg" in i:
+        import sys as _sys
+        L = i["leftover_leg"]
+        meth = L["meth"]
+        impl = Impl(False)
+        impl.force_symlink = False
+        impl.reset(meth, (True, True))
+        files = [(-1, 0, 0), (-2, 0, 1)] + [(g, key_of(j), 0) for g in (0, 1) for j in range(3)]
+        for p in files:
+            impl.apply(("W", p, 1))
+        for p in files:
+            kindof = L["stale"].get(rel(p))
+            if not kindof:
+                continue
+            sp, dp = os.path.join(impl.src, rel(p)), os.path.join(impl.dest, rel(p))
+            os.makedirs(os.path.dirname(dp), exist_ok=True)
+            tp = os.path.join(os.path.dirname(dp), "tmp." + os.path.basename(dp))
+            if kindof == "hard link":
+                os.link(sp, tp)
+            else:
+                data = open(sp, "rb").read()
+                open(tp, "wb").write(data if kindof == "complete copy" else data[:len(data) // 2])
+        for p in files + files[::-1]:
+            impl.apply(("C", p))
+        dst_t = read_tree(impl.dest)
+        bad = [rel(p) for p in files if dst_t.get(rel(p)) != content(p, 1)]
+        print("mirror (%s) restarted over leftover staging files %s" % (METH[meth], L["stale"]))
+        print("destination:", sorted(dst_t))
+        print("not published with the source's content:", bad)
+        print("replay verdict:", "STILL VIOLATING" if bad else "no longer violating")
+        return 1 if bad else 0
     flags = tuple(i.get("flags", (True, True)))
     if i.get("real_recording"):
         real_recording(res, i["meth"], flags)
